@@ -1,6 +1,6 @@
 -------------------------------- MODULE Trace --------------------------------
 (* Universal trace specification: dispatches every event to its package.   *)
-EXTENDS TraceDate, TraceRoman, TraceUU, TraceSem, TraceSize, TraceCross, TraceRandom
+EXTENDS TraceDate, TraceRoman, TraceUU, TraceSem, TraceSize, TraceCross, TraceRandom, TraceHelper
 
 allvars == <<dvars, rvars, uvars, svars, zvars, qvars>>
 
@@ -16,6 +16,7 @@ TraceNext ==
           \/ IsSizeOp(e)   /\ SizeStep(e)   /\ UNCHANGED <<dvars, rvars, uvars, svars, qvars, ctx>>
           \/ IsCrossOp(e)  /\ CrossStep(e)  /\ UNCHANGED <<allvars, ctx>>
           \/ IsRandomOp(e) /\ RandomStep(e) /\ UNCHANGED <<dvars, rvars, uvars, svars, zvars, ctx>>
+          \/ IsHelperOp(e) /\ HelperStep(e) /\ UNCHANGED <<allvars, ctx>>
      /\ l' = l + 1
   \/ Finish /\ UNCHANGED allvars
 
